@@ -358,7 +358,10 @@ func applyCosmetic(p *pgen.Program, files map[string]string, op string, r *rand.
 			p.FileNames = []string{"moved_a.mro", "dir/moved_b.mro"}
 			k := 0
 			total := len(p.Structs) + len(p.Stages) + len(p.Pipelines)
-			as := func() int { f := k * 2 / (total + 1); k++; return f }
+			if total < 2 {
+				return nil, false
+			}
+			as := func() int { f := k * 2 / total; k++; return f }
 			for _, s := range p.Structs {
 				s.File = as()
 			}
